@@ -8,10 +8,10 @@ hook_commits = [l.split()[0] for l in hook_commits if l.split(" ", 1)[1].startsw
 
 CHECKS = {
  "C01": ("TLA+ Storage model: TLC model checking of the commit/merge/GC protocol with crash at every boundary + trace validation of every storage operation of real runs (all crash images symbolically) + materialised crash images recovered by the real code and judged by TLC",
-         "TLC checks MC_Storage (protocol step by step, power set of un-synced items, linear-characterisation lemma, 4 negative configurations). Every storage operation of real IndexWriter runs on SimDirectory drives Storage.tla; CrashSafe and CrashDurable are evaluated after every event. Crash images are materialised at the boundaries, recovered with Index::open / validate_checksum / read-back / writer+commit+gc, and judged against the sequential oracle.",
-         "SimDirectory implements the storage model (terminate = fsync, sync_directory makes entries/renames/unlinks durable, un-synced directory ops independent); a real disk / file system and MmapDirectory's system calls are not exercised"),
+         "TLC checks MC_Storage (protocol step by step, power set of un-synced items, linear-characterisation lemma, 4 negative configurations) and StorageProto (the same protocol as interleaved builder / updater / GC processes with delete files, merges, an I/O error in the meta.json replacement; must-fail configurations for seeded protocol changes). Every storage operation of real IndexWriter runs on SimDirectory drives Storage.tla; CrashSafe and CrashDurable are evaluated after every event. Crash images are materialised at the boundaries, recovered with Index::open / validate_checksum / read-back / writer+commit+gc, and judged against the sequential oracle.",
+         "SimDirectory implements the storage model (terminate = fsync, sync_directory makes entries/renames/unlinks durable, un-synced directory ops independent); MmapDirectory's system calls are bound through strace for one fixed history (fsync / rename / directory fsync mapped to the same storage events); crash images are not materialised on a real file system"),
  "C02": ("TLA+ model checking (TLC) of IndexCore + trace validation of real IndexWriter histories (TLC-generated and random) against the TLA+ sequential oracle",
-         "TLC checks the IndexCore specification (stamper, delete queue and cursors, workers, registers, commit task, merges, rollback, re-open, prepare/abort, batches) exhaustively for small bounds; TLC-generated histories and seeded random histories are executed on the real IndexWriter and every recorded run is judged by TLC against the sequential oracle.",
+         "TLC checks the IndexCore specification (stamper, delete queue and cursors, workers, registers, commit task, merges, rollback, re-open, prepare/abort, batches) exhaustively for small bounds; TLC-generated histories and seeded random histories are executed on the real IndexWriter and every recorded run is judged by TLC against the sequential oracle; hook-level traces step the IndexCore model itself (ImplTrace); concurrent producers are checked for linearizability (ProducerTrace); the delete queue has its own code-shaped model (DeleteQueueImpl: weak last block, double-checked locking, every interleaving) and TLC-generated operation sequences replayed on the real DeleteQueue (DeleteQueueTrace).",
          "bounded: model MaxOps<=5, traces <=60 operations, 1..8 indexing threads; content read back through a fresh Index::open; TLC and the Json module trusted"),
  "C05": ("TLA+ model checking (GcProto, IndexCore) + trace validation of concurrent reader threads against ReaderTrace.tla + gate-forced schedule from the model",
          "TLC checks reload against commit/merge/GC/rollback with and without the meta lock (same and second Index instance). Real reader threads reload, search and re-read held searchers while a real writer runs; TLC judges every reload (exactly one commit, monotone) and every re-read (unchanged). The dangerous schedule found by the model (reader parked after atomic_read(meta.json) while the writer commits, merges and collects) is forced with the SimDirectory gate.",
